@@ -39,7 +39,7 @@ def packStep (isCreate : Bool) (e : Handle) : (WM × PackSt × List Cb) → Cmd 
     | .remove _ c =>
       if p.final.contains c then
         let next := closedMask w.deps (Mask.erase p.final c)
-        if next.contains c then acc
+        if next.contains c then (w, { p with final := next }, cbs)
         else (w, { p with final := next, replaced := Mask.insert p.replaced c, src := p.src.filter (·.1 != c) }, cbs)
       else acc
     | .assign _ c v =>
@@ -113,7 +113,7 @@ def applyPack' (w : WM) (pack : List Cmd) : WM × List Cb :=
     match packStart w first with
     | none => (w, [])
     | some (w, initial0, sh) =>
-      let initial := closedMask w.deps initial0
+      let initial := if isCreate then closedMask w.deps initial0 else initial0
       let body := if isCreate then rest else pack
       packTail info w isCreate e initial sh body
 
